@@ -348,6 +348,15 @@ class FP11AccumulatorOperandStub:
             )
             raise reports.RecoverableError("FP11 accumulator expected, expression passed")
 
+        if acc >= 2 ** len(self.bit_indexes):
+            insn = state["insn"]
+            reports.error(
+                "invalid-addressing",
+                (insn.ctx_start, insn.ctx_end, f"'{insn.name.name}' FP11 instruction encodes this accumulator in {len(self.bit_indexes)} bits"),
+                (operand.ctx_start, operand.ctx_end, f"...so only 'ac0' to 'ac{2 ** len(self.bit_indexes) - 1}' can be used here, not '{operand.name}'")
+            )
+            raise reports.RecoverableError("FP11 accumulator does not fit in the field")
+
         return acc, b""
 
 
